@@ -389,6 +389,8 @@ def check_propagate(ctx):
 def check_scrub(ctx):
     from rules.common import check_scrub_release_clears_group
     check_scrub_release_clears_group(ctx, "C09.contain/scrub-release")
+    from rules.common import check_scrub_release_extent_sum
+    check_scrub_release_extent_sum(ctx, "C09.contain/scrub-release")
     # release_allocations (allocation failure path): the reservation cleared is the one just released
     inst = "C09.contain/release_allocations"
     b = ctx.fn("write_buffer::release_allocations", inst)
